@@ -84,7 +84,24 @@ ARRAYS = [
     ("ascii_to_lower", MPQ + "crypto/keys.rs", r"ASCII_TO_LOWER\s*:\s*\[u8;\s*256\]\s*=\s*\[(.*?)\];", 256),
 ]
 
-EXTRA = []  # filled by register() calls from other translator sections below
+WDT = "file-formats/world-data/wow-wdt/src/"
+FLT = r"([0-9][0-9_]*\.[0-9_]+(?:[eE][-+]?[0-9]+)?)(?:f32)?"
+
+# f32 literals, emitted as their IEEE-754 binary32 bit patterns (round-to-nearest-even
+# of the decimal literal, which is what rustc does)
+FLOATS = [
+    ("wdt_t2w_map_size_bits", WDT + "lib.rs", r"fn\s+tile_to_world.*?const\s+MAP_SIZE\s*:\s*f32\s*=\s*" + FLT, 533.3333),
+    ("wdt_t2w_half_tiles_bits", WDT + "lib.rs", r"fn\s+tile_to_world.*?const\s+MAP_OFFSET\s*:\s*f32\s*=\s*" + FLT + r"\s*\*\s*MAP_SIZE", 32.0),
+    ("wdt_w2t_map_size_bits", WDT + "lib.rs", r"fn\s+world_to_tile.*?const\s+MAP_SIZE\s*:\s*f32\s*=\s*" + FLT, 533.3333),
+    ("wdt_w2t_half_tiles_bits", WDT + "lib.rs", r"fn\s+world_to_tile.*?const\s+MAP_OFFSET\s*:\s*f32\s*=\s*" + FLT + r"\s*\*\s*MAP_SIZE", 32.0),
+    ("wdt_w2t_eps_bits", WDT + "lib.rs", r"fn\s+world_to_tile.*?const\s+TILE_EPSILON\s*:\s*f32\s*=\s*" + FLT, 1.0e-4),
+]
+
+EXTRA = [
+    ("wdt_w2t_clamp", WDT + "lib.rs", r"tile_x\.min\(\s*" + NUM + r"\s*\)", 63),
+    ("wdt_version", WDT + "chunks/mod.rs", r"WDT_VERSION\s*:\s*u32\s*=\s*" + NUM, 18),
+    ("wdt_map_size", WDT + "chunks/mod.rs", r"WDT_MAP_SIZE\s*:\s*usize\s*=\s*" + NUM, 64),
+]
 
 
 def default_upper():
@@ -116,6 +133,23 @@ def main():
             v = default
         report["values"][name] = v
         lines.append("Definition %s : N := %d." % (name, v))
+    import struct
+    for name, rel, rx, default in FLOATS:
+        if rel not in cache:
+            cache[rel] = strip_comments(read(rel))
+        m = re.search(rx, cache[rel], flags=re.S)
+        v = None
+        if m:
+            try:
+                v = float(m.group(1).replace("_", ""))
+            except ValueError:
+                v = None
+        if v is None:
+            report["missing"].append(name)
+            v = default
+        bits = struct.unpack("<I", struct.pack("<f", v))[0]
+        report["values"][name] = bits
+        lines.append("Definition %s : N := %d." % (name, bits))
     for name, rel, rx, n in ARRAYS:
         if rel not in cache:
             cache[rel] = strip_comments(read(rel))
